@@ -97,7 +97,7 @@ PairClauses(p) ==
   CASE PROP = "C15" ->
          << <<"C15_len", C15_len(p)>>, <<"C15_toks", C15_toks(p)>>, <<"C15_errs", C15_errs(p)>> >>
     [] PROP = "C16" ->
-         << <<"C16_len", C16_len(p)>>, <<"C16_toks", C16_toks(p)>>, <<"C16_errs", C16_errs(p)>> >>
+         << <<"C16_len", C16_len(p)>>, <<"C16_toks", C16_toks(p)>>, <<"C16_text", C16_text(p)>>, <<"C16_errs", C16_errs(p)>> >>
     [] PROP = "C17" ->
          << <<"C17_len", C17_len(p)>>, <<"C17_toks", C17_toks(p)>>, <<"C17_errs", C17_errs(p)>> >>
     [] PROP = "C18" ->
